@@ -18,7 +18,7 @@ MON = {
     "C03": {"BelowThreshold", "AcceptedInvalidPartial", "AcceptedNonMember", "AcceptedOwnIndex"},
     "C04": {"NoEarlyPartial", "AcceptedFuturePartial", "BeaconBeforeItsTime", "HeadBeyondClock", "TickRound"},
     "C05": {"NoProgress"},
-    "C07": {"IdentityChanged", "AcceptedInvalidPartial", "NoProgress", "GapOrOutOfOrder", "Rewrite", "BadLink", "Disagreement",
+    "C07": {"IdentityChanged", "AcceptedInvalidPartial", "WrongShareEpoch", "VaultEpoch", "NoProgress", "GapOrOutOfOrder", "Rewrite", "BadLink", "Disagreement",
             "StoredUnverifiable", "BelowThreshold"},
 }
 ALWAYS = {"HandlerDidNotReturn"}
@@ -204,6 +204,33 @@ def sc_reshare(rng, shape, k):
     return {"name": "reshare-%s-%d" % (shape, k), "n": 5, "t": 2, "group": [0, 1, 2], "steps": steps}
 
 
+def sc_reshare_early(rng, k):
+    """threshold raised 2 -> 3 on the same three members, transition at round 4.  A partial for the
+    transition round made with an OLD share reaches nodes 1 and 2 before they switch groups (it is a valid
+    partial of the group that is live at that moment); after the switch only two members contribute new-epoch
+    partials: with the new threshold 3 no beacon of round 4 may be produced until the third member is back."""
+    steps = [{"op": "startall"}]
+    steps += _round_steps(0, "random", "r1") + _round_steps(10, "random", "r2")
+    steps.append({"op": "reshare", "nodes": [0, 1, 2], "t": 3, "round": 4})
+    # round 3: only node 0 gets the others' partials first and stores round 3
+    steps += [{"op": "advance", "node": -1, "to": 20}, {"op": "deliverto", "node": 0, "order": "random"}]
+    for v in (1, 2):
+        steps.append({"op": "adv", "node": v, "kind": "oldEpoch", "as": 0, "round": 4})
+    steps += [{"op": "deliverall", "order": "random"}, {"op": "quiesce", "label": "r3"}]
+    steps.append({"op": "stop", "node": 0})
+    steps += _round_steps(30, "random", "r4-two-of-three")
+    for c in (2, 4, 6, 8):
+        steps += [{"op": "advance", "node": -1, "to": 30 + c}, {"op": "deliverall", "order": "random"}]
+    steps.append({"op": "quiesce", "label": "r4-still-two"})
+    steps.append({"op": "start", "node": 0, "mode": "catchup"})
+    for r in range(4, 8):
+        steps += _round_steps(10 * r, "random", "r%d" % (r + 1))
+        for c in (2, 4, 6, 8):
+            steps += [{"op": "advance", "node": -1, "to": 10 * r + c}, {"op": "deliverall", "order": "random"}]
+    steps.append({"op": "quiesce", "label": "live-after-reshare"})
+    return {"name": "reshare-early-%d" % k, "n": 3, "t": 2, "steps": steps}
+
+
 # ----------------------------------------------------------------------------- TLC behaviours -> scripts
 
 UNIT = 2  # seconds per model time unit (= catch-up period); P = 2 units => period 4 s
@@ -285,6 +312,9 @@ def scenarios_for(ctx, prop):
         shapes = ["same", "add1", "remove1", "replace1", "tup", "add2"]
         for k, sh in enumerate(shapes if not q else rng.sample(shapes, 3)):
             out.append(sc_reshare(rng, sh, k))
+        out.append(sc_reshare_early(rng, 0))
+    if prop in ("C01", "C03"):
+        out.append(sc_reshare_early(rng, 0))
     return out
 
 
